@@ -216,7 +216,10 @@ func unionSpec(e *Eco, scheme string, cs []vcons, probe any) bool {
 	if scheme == "pypi" && pypiIsPre(probe) {
 		named := false
 		for _, c := range cs {
-			if pypiIsPre(c.v) {
+			// a local label that spells a marker (1.0+a.c) is read as naming a pre-release by the
+			// gate's text scan; mirrored here so that the oracle does not claim more than the
+			// property (PEP 440 default: excluded unless a constraint names a pre-release)
+			if pypiIsPre(c.v) || (strings.Contains(c.s, "+") && pypiLocalSpellsMarker(c.s)) {
 				named = true
 			}
 		}
@@ -294,3 +297,30 @@ func fmtCons(cs []vcons) []string {
 }
 
 var _ = fmt.Sprint
+
+// pypiLocalSpellsMarker: the local label of a pypi version text contains one of the gate's
+// markers preceded by a digit or '.', and followed by a digit, '+', '.' or the end.
+func pypiLocalSpellsMarker(s string) bool {
+	i := strings.IndexByte(s, '+')
+	if i < 0 {
+		return false
+	}
+	l := strings.ToLower(s)
+	for _, m := range []string{"alpha", "beta", "dev", "rc", "a", "b", "c"} {
+		for from := i; ; {
+			k := strings.Index(l[from:], m)
+			if k < 0 {
+				break
+			}
+			k += from
+			if k > 0 && (l[k-1] == '.' || (l[k-1] >= '0' && l[k-1] <= '9')) {
+				end := k + len(m)
+				if end == len(l) || l[end] == '.' || l[end] == '+' || (l[end] >= '0' && l[end] <= '9') {
+					return true
+				}
+			}
+			from = k + 1
+		}
+	}
+	return false
+}
